@@ -5,6 +5,7 @@ import (
 	_ "verifmc/checks/c06"
 	_ "verifmc/checks/c07"
 	_ "verifmc/checks/c14"
+	_ "verifmc/checks/c15"
 	_ "verifmc/checks/c16"
 	_ "verifmc/checks/c17"
 	_ "verifmc/checks/c18"
